@@ -599,3 +599,101 @@ Definition run_pm_volume (w : nat) (a : list (list (list (list Z)))) (N R C : Z)
        | None => Ok (VL [vz_list (fst pf); vz_list (snd pf)])
        | Some m => bind (apply_mapping m (snd pf)) (fun vs => Ok (VL [vz_list (fst pf); vq_list vs]))
        end) sl))).
+
+(* ======================================================================== *)
+(* strengthening 3: ONE image object, a sequence of accesses                  *)
+(* (image.py keeps the decoded whole pixel array in _pixel_array once          *)
+(*  pixel_array has been read; every frame accessor then serves from it)      *)
+(* ======================================================================== *)
+Inductive op :=
+| OPixelArray                                                  (* im.pixel_array *)
+| OStoredFrame (f : Z) (ai : bool)                             (* get_stored_frame *)
+| OStoredFrames (fs : option (list Z)) (ai : bool)             (* get_stored_frames *)
+| OFrame (rw md voi : option bool) (f : Z) (ai : bool)         (* get_frame *)
+| OFrames (rw md voi : option bool) (fs : option (list Z)) (ai : bool).   (* get_frames *)
+
+Section Session.
+  Variable w : nat.
+  Variables R C M n : Z.
+  Variable bytes : list Z.
+  Variable maps : list (list (string * mapping)).
+  Variable sel : selector.
+  Variables center width : Q.
+
+  (* state of the object: the cached decoded array (list of frames), if any *)
+  Definition cache := option (list (list Z)).
+
+  (* the whole array as decoded at once: frame k of it is PixelData[k*len:(k+1)*len] *)
+  Definition decode_all : list (list Z) := map (read_frame w R C bytes) (zrange n).
+
+  (* stored values of the frame with standardised index k:
+       _pixel_array is None  -> get_raw_frame + decode_frame
+       otherwise             -> pixel_array[k]  (the whole array if there is one frame) *)
+  Definition frame_at (st : cache) (k : Z) : list Z :=
+    match st with
+    | None => read_frame w R C bytes k
+    | Some arr => if n =? 1 then nth 0 arr [] else nth (Z.to_nat k) arr []
+    end.
+
+  Definition s_stored_frame (st : cache) (f : Z) (ai : bool) : res (list Z) :=
+    bind (std_index n f ai) (fun k => Ok (frame_at st k)).
+
+  (* loop over the requested numbers IN THE ORDER GIVEN, one output frame per request *)
+  Definition s_stored_frames (st : cache) (fs : option (list Z)) (ai : bool) : res (list (list Z)) :=
+    let l := match fs with Some l => l | None => all_frames n ai end in
+    bind (res_all (map (fun f => s_stored_frame st f ai) l)) (fun out =>
+    match out with [] => Err "ValueError" | _ => Ok out end).
+
+  (* get_frame = index check, get_stored_frame (cache aware), transform of that frame *)
+  Definition s_frame (st : cache) (rw md voi : option bool) (f : Z) (ai : bool) : res (list Q) :=
+    bind (std_index n f ai) (fun k =>
+    bind (frame_transform (frame_maps maps M k) sel rw md voi center width) (fun t =>
+    t (frame_at st k))).
+
+  (* get_frames: own loop; transform built from the first requested frame first *)
+  Definition s_frames (st : cache) (rw md voi : option bool) (fs : option (list Z)) (ai : bool)
+    : res (list (list Q)) :=
+    let l := match fs with Some l => l | None => all_frames n ai end in
+    match l with
+    | [] => bind (frame_transform (frame_maps maps M 0) sel rw md voi center width)
+                 (fun _ => Err "ValueError")
+    | f0 :: _ =>
+      bind (std_index n f0 ai) (fun k0 =>
+      bind (frame_transform (frame_maps maps M k0) sel rw md voi center width) (fun _ =>
+      res_all (map (fun f => s_frame st rw md voi f ai) l)))
+    end.
+
+  (* pixel_array: cached array if present; else decode everything (lazy reader: get_stored_frame(1)
+     for one frame, get_stored_frames() otherwise; eager / in-memory: pydicom's decoder of the whole
+     element, the same words by oracle premise 2) and keep it *)
+  Definition s_pixel_array (st : cache) : res (list (list Z)) * cache :=
+    match st with
+    | Some arr => (Ok arr, st)
+    | None =>
+      let r := if n =? 1 then bind (s_stored_frame None 1 false) (fun f => Ok [f])
+               else s_stored_frames None None false in
+      (r, match r with Ok arr => Some arr | Err _ => None end)
+    end.
+
+  Definition exec (st : cache) (o : op) : val * cache :=
+    match o with
+    | OPixelArray => let (r, st') := s_pixel_array st in (vres vz_list2 r, st')
+    | OStoredFrame f ai => (vres vz_list (s_stored_frame st f ai), st)
+    | OStoredFrames fs ai => (vres vz_list2 (s_stored_frames st fs ai), st)
+    | OFrame rw md voi f ai => (vres vq_list (s_frame st rw md voi f ai), st)
+    | OFrames rw md voi fs ai => (vres (fun l => VL (map vq_list l)) (s_frames st rw md voi fs ai), st)
+    end.
+
+  Fixpoint session (st : cache) (ops : list op) : list val :=
+    match ops with
+    | [] => []
+    | o :: rest => let (v, st') := exec st o in v :: session st' rest
+    end.
+End Session.
+
+(* boundary: a freshly opened image of the map built from array a, then the accesses in order;
+   one result per access *)
+Definition run_pm_session (w : nat) (a : list (list (list (list Z)))) (N R C M : Z)
+           (maps : list (list (string * mapping))) (sel : selector) (center width : Q)
+           (ops : list op) : val :=
+  VL (session w R C M (N * M) (pm_bytes (get_nested a) N R C M w) maps sel center width None ops).
